@@ -268,9 +268,12 @@ def pick_op(rng, cur):
                 return merged, (lambda z: z), True, "concat_split:degenerate"
             merged = a.concat(b, axis=axis)
             snap_a, snap_b = snapshot(a), snapshot(b)
+            use_dict = bool(rng.integers(0, 2))
 
             def closer(z):
-                a2, b2 = z.concat_inverse(sigb, axis=axis)
+                # both documented forms of the signature argument: dict, or a Signature tuple (in a shuffled order)
+                sig_arg = sigb if use_dict else geom.Signature(tuple((t, n) for t, n in sorted(sigb.items(), reverse=True)))
+                a2, b2 = z.concat_inverse(sig_arg, axis=axis)
                 for nm, got, sn in (("a", a2, snap_a), ("b", b2, snap_b)):
                     msg = same_state(got, sn, f"concat_inverse part {nm} (axis {axis}, signature {sigb})")
                     if msg:
